@@ -98,7 +98,7 @@ Definition kstep (s : sstore) (o : cop) : sstore * res value :=
       let name := (field ++ "_1")%string in
       (with_coll s db c (fun x => mkCS (cs_docs x)
                                        (if mem_str name (cs_idx x) then cs_idx x else cs_idx x ++ [name])
-                                       (cs_forced x)), Ok (VStr name))
+                                       true), Ok (VStr name))      (* store.create_index marks it created *)
   | KDropIndex db c name =>
       let cur := get_coll (get_db s db) c in
       if mem_str name (cs_idx cur) then
@@ -111,6 +111,7 @@ Definition kstep (s : sstore) (o : cop) : sstore * res value :=
       if negb (valid_name new_name) then (s, Err ECrash) else
       let d0 := touch_coll (get_db s db) c in                 (* self._store[name] *)
       if negb (cs_created (get_coll d0 c)) then (put_db s db d0, Err EOpFail) else
+      if (c =? new_name)%string then (put_db s db d0, Err EOpFail) else   (* to itself: rejected *)
       let d1 := touch_coll d0 new_name in                     (* new_name in self._store *)
       if cs_created (get_coll d1 new_name) && negb drop_target then (put_db s db d1, Err EOpFail)
       else
@@ -219,6 +220,7 @@ Definition spec_step (a : acat) (o : cop) : acat * res value :=
       match a_get a db c with
       | None => (a, Err EOpFail)                           (* source absent *)
       | Some x =>
+          if (c =? new_name)%string then (a, Err EOpFail) else   (* a collection is not renamed to itself *)
           match a_get a db new_name with
           | Some _ => if drop_target then (a_put (a_del a db c) db new_name x, Ok VNull)
                       else (a, Err EOpFail)                (* target exists *)
@@ -282,11 +284,10 @@ Definition out_eqb (m i : res value) : bool :=
   | _, _ => false
   end.
 
-(* guard: 1 = F-COLL-VANISH-IDX: the history drops indexes (a collection that exists only
-   through its indexes vanishes from the listings when the last one is dropped) *)
-Definition c17_reasons (ops : list (nat * cop)) : Z :=
-  if existsb (fun so => match snd so with KDropIndex _ _ _ | KDropIndexes _ _ => true | _ => false end) ops
-  then 1%Z else 0%Z.
+(* guard: none left.  (Bit 1 was F-COLL-VANISH-IDX - a collection that existed only through its
+   indexes vanished from the listings when the last one was dropped - repaired in the library:
+   store.create_index marks the collection created.) *)
+Definition c17_reasons (ops : list (nat * cop)) : Z := 0%Z.
 
 Definition c17_check (c : c17_case) : Z :=
   let m := wrun (repeat [] (g_servers c)) (g_ops c) in
